@@ -17,9 +17,9 @@ Theorem c12_observed_fields_cloned :
 Proof. exact observed_fields_cloned. Qed.
 Print Assumptions c12_observed_fields_cloned.
 
-Theorem c12_subshell_preserves_cloned : forall c body w f,
-  ~ In f known_shared -> flows_back f = false ->
-  cget f (fst (fst (run_mut (MSub c body) w))) = cget f (fst w).
+Theorem c12_subshell_preserves_cloned : forall o c body w f,
+  is_subshell o c = true -> ~ In f known_shared -> flows_back f = false ->
+  cget f (fst (fst (run_mut o (MSub c body) w))) = cget f (fst w).
 Proof. exact subshell_preserves_cloned. Qed.
 Print Assumptions c12_subshell_preserves_cloned.
 
@@ -27,44 +27,69 @@ Theorem c12_clone_starts_equal : forall f s, In f observed -> cget f (clone_shel
 Proof. exact clone_starts_equal. Qed.
 Print Assumptions c12_clone_starts_equal.
 
+(** Which contexts are subshells, as a function of pipefail / lastpipe / set -m. *)
+Theorem c12_stage_classification :
+  (forall o, is_subshell o CPipeFirst = true) /\
+  (forall o c, c <> CPipeLast -> is_subshell o c = true) /\
+  (forall o c, o_jobctl o = true -> is_subshell o c = true) /\
+  (forall o c, o_lastpipe o = false -> is_subshell o c = true) /\
+  (forall o, is_subshell o CPipeLast = false <-> (o_lastpipe o = true /\ o_jobctl o = false)).
+Proof. exact stage_classification. Qed.
+Print Assumptions c12_stage_classification.
+
+Theorem c12_lastpipe_last_stage_is_current : forall o body w,
+  o_lastpipe o = true -> o_jobctl o = false ->
+  run_mut o (MSub CPipeLast body) w =
+  let '(w', fl) := run_list o body w in ((cset status_field [lit "?"] (fst w'), snd w'), fl).
+Proof. exact lastpipe_last_stage_is_current. Qed.
+Print Assumptions c12_lastpipe_last_stage_is_current.
+
 Theorem c12_mutator_classification :
-  (forall m w, touches_pg m = false -> snd (fst (run_mut m w)) = snd w) /\
-  (forall z w, pg_umask (snd (fst (run_mut (MUmask z) w))) = z) /\
-  (forall z w, pg_nofile (snd (fst (run_mut (MUlimit z) w))) = z) /\
-  (forall f v w, snd (fst (run_mut (MField f v) w)) = snd w).
+  (forall o m w, touches_pg m = false -> snd (fst (run_mut o m w)) = snd w) /\
+  (forall o z w, pg_umask (snd (fst (run_mut o (MUmask z) w))) = z) /\
+  (forall o z w, pg_nofile (snd (fst (run_mut o (MUlimit z) w))) = z) /\
+  (forall o f v w, snd (fst (run_mut o (MField f v) w)) = snd w).
 Proof. exact mutator_classification. Qed.
 Print Assumptions c12_mutator_classification.
 
-Theorem c12_isolation_outside_known : forall c body w,
-  touches_pg (MSub c body) = false ->
-  snd (fst (run_mut (MSub c body) w)) = snd w /\
+Theorem c12_isolation_outside_known : forall o c body w,
+  is_subshell o c = true -> touches_pg (MSub c body) = false ->
+  snd (fst (run_mut o (MSub c body) w)) = snd w /\
   forall f, ~ In f known_shared -> flows_back f = false ->
-            cget f (fst (fst (run_mut (MSub c body) w))) = cget f (fst w).
+            cget f (fst (fst (run_mut o (MSub c body) w))) = cget f (fst w).
 Proof. exact isolation_outside_known. Qed.
 Print Assumptions c12_isolation_outside_known.
 
-Theorem c12_isolation_refuted : exists c body w, snd (fst (run_mut (MSub c body) w)) <> snd w.
+Theorem c12_isolation_refuted :
+  exists o c body w, is_subshell o c = true /\ snd (fst (run_mut o (MSub c body) w)) <> snd w.
 Proof. exact isolation_refuted. Qed.
 Print Assumptions c12_isolation_refuted.
 
 Theorem c12_isolation_ulimit_refuted :
-  exists c body w, pg_nofile (snd (fst (run_mut (MSub c body) w))) <> pg_nofile (snd w).
+  exists o c body w, is_subshell o c = true /\
+    pg_nofile (snd (fst (run_mut o (MSub c body) w))) <> pg_nofile (snd w).
 Proof. exact isolation_ulimit_refuted. Qed.
 Print Assumptions c12_isolation_ulimit_refuted.
 
-Theorem c12_exit_contained : forall c body w, snd (run_mut (MSub c body) w) = Go.
+(** exit / return (any control flow) of a subshell stay in it, for every option setting. *)
+Theorem c12_exit_contained : forall o c body w, is_subshell o c = true -> snd (run_mut o (MSub c body) w) = Go.
 Proof. exact exit_contained. Qed.
 Print Assumptions c12_exit_contained.
 
+Theorem c12_call_absorbs_return : forall o body w, snd (run_mut o (MCall body) w) <> Returned.
+Proof. exact call_absorbs_return. Qed.
+Print Assumptions c12_call_absorbs_return.
+
 Theorem c12_shared_field_leaks :
   exists f v, In f known_shared /\
-    cget f (fst (fst (run_mut (MSub CParen [MField f v]) (init_state, mkPg 18 1024 [])))) = v /\
+    cget f (fst (fst (run_mut o_none (MSub CParen [MField f v]) (init_state, mkPg 18 1024 [])))) = v /\
     v <> cget f init_state.
 Proof. exact shared_field_leaks. Qed.
 Print Assumptions c12_shared_field_leaks.
 
 Theorem c12_nonvacuous :
-  touches_pg (MSub CPipeFirst [MField "env"%string [lit "x"]; MSub CParen [MExit 3]; MField "traps"%string []]) = false /\
+  touches_pg (MSub CPipeFirst [MField "env"%string [lit "x"]; MSub CParen [MExit 3]; MCall [MReturn 2]; MField "traps"%string []]) = false /\
+  is_subshell (mkOpts true true true) CPipeLast = true /\ is_subshell (mkOpts true false true) CPipeLast = false /\
   ~ In "env"%string known_shared /\ flows_back "env"%string = false /\ In "env"%string observed.
 Proof. exact ex_nonvacuous. Qed.
 Print Assumptions c12_nonvacuous.
